@@ -243,10 +243,10 @@ def geometry_module(pid, geo, peers):
     cfg = os.path.join(d, name + '.cfg')
     with open(cfg, 'w') as f:
         f.write('SPECIFICATION TSpec\nCONSTANTS\n  Peers = {%s}\n  NPieces = %d\n  NBlocks <- NB\n  EndGame = 10\n  MaxUnchoked = 10\n'
-                '  OptRounds = 3\n  KALimit = 2\n  Pipeline = {1, 2, 3}\n  Rates = {0}\n  FrameKinds = {}\n  HS0 = FALSE\n'
+                '  OptRounds = 3\n  KALimit = 2\n  Pipeline = {1, 2, 3}\n  Rates = {0}\n  FrameKinds = {}\n  BFMenu = {}\n  HS0 = FALSE\n'
                 'INVARIANTS TypeOK OwnedImpliesStored ServedImpliesStored AdvertisedImpliesStored SilentBeforeHandshake NoDataBeforeHandshake '
                 'OwnHandshakeFirst ServeOnlyUnchoked RxShape RequestsTile AnnouncedInOrder DeferredWhileChoked ReservedBacked '
-                'AskOnlyAdvertisedAndLacked NoPanic PickSound SlotBound KaBound\n'
+                'AskOnlyAdvertisedAndLacked NoPanic PickSound SlotBound ViewAgreement KaBound\n'
                 'PROPERTIES THaveStable RotationPolicy\nPOSTCONDITION Report\nCHECK_DEADLOCK FALSE\n'
                 % (', '.join('"p%d"' % (i + 1) for i in range(peers)), np_))
     return d, name, cfg
@@ -256,7 +256,7 @@ INV_PROP = {
     'OwnedImpliesStored': 'C01', 'ServedImpliesStored': 'C01', 'AdvertisedImpliesStored': 'C11', 'SilentBeforeHandshake': 'C08',
     'NoDataBeforeHandshake': 'C08', 'OwnHandshakeFirst': 'C08', 'ServeOnlyUnchoked': 'C09', 'RxShape': 'C10', 'RequestsTile': 'C10',
     'AnnouncedInOrder': 'C11', 'DeferredWhileChoked': 'C11', 'ReservedBacked': 'C12', 'AskOnlyAdvertisedAndLacked': 'C12',
-    'NoPanic': 'C12', 'PickSound': 'C13', 'SlotBound': 'C14', 'KaBound': 'C20', 'HaveStable': 'C12', 'THaveStable': 'C12', 'RotationPolicy': 'C14', 'TypeOK': 'C12',
+    'NoPanic': 'C12', 'PickSound': 'C13', 'SlotBound': 'C14', 'ViewAgreement': 'C14', 'KaBound': 'C20', 'HaveStable': 'C12', 'THaveStable': 'C12', 'RotationPolicy': 'C14', 'TypeOK': 'C12',
 }
 
 
